@@ -283,12 +283,13 @@ func (svr *Service) login() (conn net.Conn, connector Connector, err error) {
 		return
 	}
 
+	// The deadline also bounds the TLS handshake, which runs lazily inside the first write.
+	_ = conn.SetReadDeadline(time.Now().Add(10 * time.Second))
 	if err = msg.WriteMsg(conn, loginMsg); err != nil {
 		return
 	}
 
 	var loginRespMsg msg.LoginResp
-	_ = conn.SetReadDeadline(time.Now().Add(10 * time.Second))
 	if err = msg.ReadMsgInto(conn, &loginRespMsg); err != nil {
 		return
 	}
